@@ -30,11 +30,12 @@ func candidateClauses(vc *FnVC) map[int][]Clause {
 			if !ok {
 				break
 			}
-			if phi.Comment == "" || !isPlainIdent(phi.Comment) {
+			name := phiAlias(phi.Comment)
+			if name == "" || !isPlainIdent(name) {
 				continue
 			}
 			if isInteger(phi.Type()) {
-				intPhis = append(intPhis, phi.Comment)
+				intPhis = append(intPhis, name)
 			}
 		}
 		if len(intPhis) == 0 {
